@@ -66,6 +66,7 @@ type xferSpec struct {
 	cutErr    bool
 	failWrite int // >0: that client->server write fails (C04)
 	after     bool // C04: issue one more call after the transfer
+	noOffset  bool // do not judge the File offset (C01 speaks about bytes and counts; offsets are C12/C13)
 }
 
 func (s xferSpec) String() string {
@@ -312,7 +313,7 @@ func (s xferSpec) judge(res *xferResult, env *cliEnv) (outcome, bad, key string)
 			}
 		}
 	}
-	if int(res.offAfter) != wantOff {
+	if !s.noOffset && int(res.offAfter) != wantOff {
 		return fail("offset", "File offset is %d afterwards, reference says %d", res.offAfter, wantOff)
 	}
 	return outcome, "", ""
